@@ -138,7 +138,13 @@ func processBlock(exp Exporter) {
 				}
 			}
 			handler(exp)
-			ctx.PrevMacro = b.Name
+			switch b.Name {
+			case "#de", "#.", "#if", "#;", "#dv", "X":
+				// definitions, conditionals and declarations are
+				// invisible to rendering
+			default:
+				ctx.PrevMacro = b.Name
+			}
 		} else if b.Name != "" && ctx.Process {
 			ctx.Error("unknown macro:", b.Name)
 		}
